@@ -32,6 +32,10 @@ type c19Case struct {
 func encFeature(f gts.Feature) string {
 	var ps []string
 	for _, p := range f.Props {
+		if len(p) == 1 {
+			ps = append(ps, p[0]) // a value-less flag qualifier
+			continue
+		}
 		ps = append(ps, p[0]+"="+strings.Join(p[1:], ","))
 	}
 	return f.Key + "|" + locdom.Encode(f.Loc) + "|" + strings.Join(ps, ";")
@@ -43,6 +47,10 @@ func decFeature(s string) gts.Feature {
 	if len(parts) > 2 && parts[2] != "" {
 		for _, p := range strings.Split(parts[2], ";") {
 			i := strings.IndexByte(p, '=')
+			if i < 0 {
+				f.Props = append(f.Props, []string{p})
+				continue
+			}
 			vals := strings.Split(p[i+1:], ",")
 			f.Props = append(f.Props, append([]string{p[:i]}, vals...))
 		}
@@ -508,7 +516,10 @@ func init() {
 					{Key: "gene", Loc: gts.Range(0, 3), Props: gts.Props{{"a", "x"}, {"b", "=", "y=x=y"}}},
 					{Key: "gene", Loc: gts.Range(0, 3), Props: gts.Props{{"a", "x"}}},
 				}
-				names := []string{"", "a", "b", "a=x"}
+				eqFeats = append(eqFeats,
+					gts.Feature{Key: "CDS", Loc: gts.Range(0, 3), Props: gts.Props{{"a", "y"}, {"translation", "x=y"}}},
+					gts.Feature{Key: "gene", Loc: gts.Range(0, 3), Props: gts.Props{{"translation", "y"}, {"pseudo"}}})
+				names := []string{"", "a", "b", "a=x", "translation"}
 				res := []string{"x=y", "=y", "=", "y=x=y", "a=x", "x", "y", "^=", "=$", "x=", ""}
 				for _, key := range []string{"", "gene"} {
 					for _, n1 := range names {
